@@ -12,7 +12,8 @@ ASSUME = [
     "without option words, 'SOCKSPort 0'; requested: none, a configured value, an unconfigured value; through "
     "Tor._default_socks_endpoint / _create_socks_endpoint and through TorConfig.create_socks_endpoint",
     "a Tor that reports neither SOCKSPort nor a built-in default (old versions) is not explored",
-    "fallback: outcomes ok / connection error / other error for each of the well-known ports 9050, 9150",
+    "fallback: outcomes ok / connection error / other error / SOCKS request refused after the TCP connection was made / hang-up during "
+    "the SOCKS negotiation, for each of the well-known ports 9050, 9150",
 ]
 POOL = ["9050", "9050 IsolateDestAddr", "9150 IPv6Traffic PreferIPv6 KeepAliveIsolateSOCKSAuth", "127.0.0.1:9052",
         "10.0.0.5:9053 IsolateClientAddr", "unix:/tmp/tor/socks.sock", "unix:/tmp/s2 WorldWritable"]
@@ -52,12 +53,12 @@ def run(pid, tier, seed):
             recs.append(sp.choose(ex, rq, "tor"))
             if rq is not None and ex["lines"]:
                 recs.append(sp.choose(ex, rq, "config"))
-    for outs in itertools.product(["ok", "connerr", "other"], repeat=2):
+    for outs in itertools.product(["ok", "connerr", "other", "socksfail", "hangup"], repeat=2):
         recs.append(sp.fallback(outs))
     rep.cov["evaluations"] = len(recs)
     rep.cov["distinct_nontrivial"] = len(set(common.digest([r.get("existing"), r.get("requested"), r.get("path"), r.get("outcomes")]) for r in recs))
     rep.cov["rule"] = ("existing SOCKSPort configurations (default, 'SOCKSPort 0', ordered selections of 1-3 lines from 7 forms) x requested "
-                       "{none, configured, unconfigured in 3 forms} x 2 API paths, plus all 9 outcome sequences of the well-known-port "
+                       "{none, configured, unconfigured in 3 forms} x 2 API paths, plus all 25 outcome sequences of the well-known-port "
                        "fallback; distinct by input; each requires a decision (use / add)")
     traces = [dict(r, steps=[1]) for r in recs]
     res, runs = tlc.validate_parallel("SocksPortTrace", "SocksPortTrace.cfg", traces, nproc=8, chunk=600, timeout=1500)
